@@ -4,6 +4,7 @@ import CCVerif.Lemmas.ParserRangesLex
 import CCVerif.Lemmas.ParserShapeTop
 import CCVerif.Lemmas.RangeExactPos
 import CCVerif.Lemmas.ParseRender
+import CCVerif.Lemmas.ParseShaped
 /-!
 # C06 — the parser builds the grammar's tree; node ranges delimit their source text
 
@@ -1032,6 +1033,57 @@ theorem parens_limits :
     ok [t .DECLARATIVE, t .PUNC_CL, a, t .IN, PP.tk .ID_GLOBAL (.text "X1"), t .PUNC_BAR, t .PUNC_PL, a, t .EQUAL, b,
       t .PUNC_PR, t .PUNC_CR] = false ∧
     ok [t .PUNC_PL, a, t .EQUAL, b, t .PUNC_PR, t .AND, a, t .EQUAL, b] = true := by
+  decide +kernel
+
+/-! ## the parser's range and the carrier `defShaped` of the schema-level theorems (prover-C06f)
+
+C08 `rename_iso_checker_shaped`, C11 `fresh_checker_evaluator_partial3/4`, C12 `synth_correct_checker`, C13
+`extract_status_type_preserved_checker` assume that every stored definition is GRAMMAR-SHAPED (`SchemaGen.defShaped`:
+`Wf.wf .ND` of `Model/WfAst.lean` + `Checker.shapeOK`). The schemas store what the parser returned — but the carrier is
+STRICTLY SMALLER than the range of the parser. -/
+
+/-- the statement one would like: every definition tree (no global declaration at the top) the parser returns is in
+the carrier. FALSE: `parse_gives_defShaped_counterexample`. -/
+def parse_gives_defShaped_statement : Prop :=
+  ∀ (syn : Syn) (text : List Nat) (t : Ast), parse syn text = some t → t.id ≠ .PUNC_DEFINE → t.id ≠ .PUNC_STRUCT →
+    SchemaGen.defShaped (some t) = true
+
+/-- **parse_gives_defShaped_counterexample**: two closed texts whose parsed tree is outside the carrier.
+(1) `F1[X1]` — a call of a TERM function at the top of a definition (the same for the body of a function definition,
+`[α∈ℬ(R1)] F1[α]`): `Wf.shape .ND` / `.LS` look up `NT_FUNC_CALL` among the logic shapes first and find the predicate
+call `headAll .PN`, so `Wf.wf .ND` fails on an `ID_FUNCTION` head (below a set operator, `X1∪F1[X1]`, the tree IS
+shaped); `shapeOK` holds. (2) `X1∪R01` (also `R0`) — the lexer's `R{number}` makes `R01` an `ID_RADICAL` token, for
+`Types.isRadical` (`alias.at(1) != '0'`) it is not a radical, so `shapeOK` fails; `Wf.wf .ND` holds. The real parser
+accepts both texts; the theorems stated on the carrier say nothing about schemas that contain such definitions. -/
+theorem parse_gives_defShaped_counterexample :
+    ¬ parse_gives_defShaped_statement ∧
+    parse .math (units "F1[X1]") = some ParseShaped.exCall ∧ parse .ascii (units "F1[X1]") = some ParseShaped.exCall ∧
+    Wf.wf .ND ParseShaped.exCall = false ∧ Checker.shapeOK ParseShaped.exCall = true ∧
+    parse .math (units "X1∪R01") = some ParseShaped.exRad ∧
+    Wf.wf .ND ParseShaped.exRad = true ∧ Checker.shapeOK ParseShaped.exRad = false := by
+  have h1 : parse .math (units "F1[X1]") = some ParseShaped.exCall := by decide +kernel
+  refine ⟨?_, h1, by decide +kernel, by decide +kernel, by decide +kernel, by decide +kernel, by decide +kernel,
+    by decide +kernel⟩
+  intro h
+  have := h .math _ _ h1 (by decide) (by decide)
+  revert this
+  decide +kernel
+
+/-- **lex_identifier_spelling**: for both syntaxes and EVERY text, the text of every identifier token of the lexer's
+stream is a spelling of the rule of its kind (`ParseShaped.spelledAs`): `ID_FUNCTION` = `F` digits⁺, `ID_PREDICATE` =
+`P` digits⁺, `ID_RADICAL` = `R` digits⁺, `ID_GLOBAL` = an upper-case letter other than `B` followed by letters, digits
+and `_`, `ID_LOCAL` = `_` or a lower-case (MATH: or Greek) letter followed by the same. With C04 `lex_token_text` (the
+text is the slice of the input at the token's range) this is the payload half of "the tokens of a parsed tree carry
+the texts the lexer gives them". In particular an `ID_GLOBAL` token may be spelled `X01`, `X1a`, `XY`, `X_1` — no
+`GoodName` condition follows for it, and `shapeOK` asks none. -/
+theorem lex_identifier_spelling (syn : Syn) (text : List Nat) (ts : List RawTok) (h : lexRaw syn text = some ts) :
+    ∀ tok ∈ ts, ParseShaped.spelledAs syn tok.id tok.text = true :=
+  ParseShaped.lexRaw_spelled syn text ts h
+
+/-- non-vacuity: the identifier tokens of `X01∪F12[ξ_1, R01]` and their spellings -/
+example : (lexRaw .math (units "X01∪F12[ξ_1, R01]")).map (fun ts => ts.map fun t => (t.id, t.text)) =
+    some [(.ID_GLOBAL, units "X01"), (.UNION, units "∪"), (.ID_FUNCTION, units "F12"), (.PUNC_SL, units "["),
+      (.ID_LOCAL, units "ξ_1"), (.PUNC_COMMA, units ","), (.ID_RADICAL, units "R01"), (.PUNC_SR, units "]"), (.END, [])] := by
   decide +kernel
 
 end CCVerif.C06
